@@ -27,7 +27,7 @@ def run(tier, seed):
         raise vc.EngineError("vacuous: too few triples")
     n = vc.triage(PID, viol)
     cov = dict(tot)
-    cov.update({"rule": "all ordered triples over the event alphabet timestamps x anti flag x type{0,1,2} x payload size{0,1,32,33,40} "
+    cov.update({"rule": "all ordered triples over the event alphabet timestamps x anti flag x type{0,1,2} x payload size{0,1,32,33,40} (and a second alphabet on ties with type codes spanning the 32-bit range: 0, 1, 0x60000000, 0x7fffffff, 0x80000000, 0xc0000000, 0xffffffff x size{0,33}) "
                         "x content variants (first/32nd/33rd/last byte), for msg_is_before and q_elem_is_before, plus 7 non-content "
                         "variants of every event (PROCESSED bit, remote id bits, m_seq, dest, next, address, buffer bytes beyond the payload) against every event; "
                         "non-trivial = triple of three distinct events with equal timestamps (decided by the tie-break)",
